@@ -87,8 +87,28 @@ def install(env):
             return SBool(z3.ForAll([j], z3.Implies(rng, body)))
         return SBool(z3.Exists([j], z3.And(rng, body)))
 
+    def _sub(it, s, start, n):
+        if not has_sym(s) and not has_sym(start) and not has_sym(n):
+            return _api.sub(s, start, n)
+        r = z3.Extract(ops.seq_term(s), ops.int_term(start), ops.int_term(n))
+        if isinstance(s, (SBytes, bytes, bytearray)):
+            return ops.mk_bytes(r, False)
+        if isinstance(s, (SStr, str)):
+            return ops.mk_str(r)
+        return SSeq(r, s.elem, False)
+
+    stub(_api.sub, _sub)
     stub(_api.forall, lambda it, lo, hi, pred: _quant(it, lo, hi, pred, True))
     stub(_api.exists, lambda it, lo, hi, pred: _quant(it, lo, hi, pred, False))
+
+    import dataclasses as _dc
+
+    def _dc_fields(it, obj):
+        if isinstance(obj, SObj):
+            return _dc.fields(obj.cls)
+        return it.native(_dc.fields, obj)
+
+    stub(_dc.fields, _dc_fields)
 
     # ------------------------------------------------------------------ len / bool / type
     @stub(len)
@@ -637,6 +657,12 @@ def install(env):
             raise Unsupported("from_bytes of list")
         t = b.term
         n = z3.simplify(z3.Length(t))
+        if not z3.is_int_value(n) and not it.ctx.pure:
+            # the path condition may fix the length (e.g. a precondition len(value) == 2)
+            for k in range(0, 17):
+                if it.ctx._feasible(z3.Length(t) == k) and not it.ctx._feasible(z3.Length(t) != k):
+                    n = z3.IntVal(k)
+                    break
         if z3.is_int_value(n) and n.as_long() <= 16:
             k = n.as_long()
             tot = z3.IntVal(0)
